@@ -1,6 +1,7 @@
 import KtVerif.Model.Kmer
 import KtVerif.Model.Minimiser
 import KtVerif.Model.Vectors
+import KtVerif.Model.Fasta
 /-!
 # Driver glue (trusted, thin): parsing of request lines, printing of answers.
 
@@ -135,6 +136,44 @@ def cgrJudge (S : Nat) (s : List Nat) (pts : List (Nat × Nat)) : Option Nat :=
         if okc X e x rx ∧ okc Y e y ry then go (i + 1) rx ry cr er pr else some i
     go 0 [] [] corners ex pts
 
+def fmtSeqRecs (l : List SeqRec) : String :=
+  joinWith "," (l.map fun r => s!"{r.n}:{hex r.id}:{hex r.seq}")
+
+def fmtStatus : ParseStatus → String
+  | .done => "done"
+  | .panic => "panic"
+
+def fmtFormat : Option SeqFormat → String
+  | none => "0"
+  | some .fasta => "1"
+  | some .fastq => "2"
+
+/-- source records as `id:desc:seq:qual;…` (hex fields, `~` = no description) -/
+def parseSrcRecs (s : String) : List SrcRec :=
+  if s = "-" then [] else
+    (s.splitOn ";").filterMap fun e =>
+      match e.splitOn ":" with
+      | [i, d, q, u] => some { id := unhex i, desc := if d = "~" then none else some (unhex d), seq := unhex q, qual := unhex u }
+      | _ => none
+
+def answerIo : List String → Option String
+  | ["parse", fmt, hx] =>
+    let f := if fmt = "fasta" then SeqFormat.fasta else SeqFormat.fastq
+    let bytes := unhex hx
+    let (rs, st) := readAll f bytes
+    let ((n, tot), _) := seqStats f bytes
+    some (joinWith "|" ["ok", fmtSeqRecs rs, fmtStatus st, s!"{n}:{tot}", fmtFormat (sniffFormat bytes)])
+  | ["serialise", fmt, eol, wrap, fin, recs] =>
+    let cfg : SerCfg := { eol := unhex eol, wrap := wrap.toNat!, final := fin == "1" }
+    let rs := parseSrcRecs recs
+    let isFa := fmt = "fasta"
+    let bytes := if isFa then serialiseFasta cfg rs else serialiseFastq cfg rs
+    let wf := wfCfg cfg && rs.all (if isFa then wfFasta else wfFastq)
+    some (joinWith "|" ["ok", hex bytes, b01 wf, fmtSeqRecs (expectedRecs rs)])
+  | ["format", nm] =>
+    some (joinWith "|" ["ok", fmtFormat (formatOf (unhex nm)), fmtFormat (formatSpec (unhex nm))])
+  | _ => none
+
 def answerWords (c : Cache) : List String → Cache × String
   | ["oligo", k, norm, hx, dl] =>
     let k := k.toNat!; let norm := norm == "1"; let s := unhex hx; let delim := unhex dl
@@ -172,7 +211,10 @@ def answerWords (c : Cache) : List String → Cache × String
     | none => (c, "err")
     | some row =>
       (c, joinWith "|" ["ok", joinWith "," (row.map fun t => s!"{f64Bits t.1}:{f64Bits t.2.1}:{f64Bits t.2.2}")])
-  | ws => (c, answerWords0 ws)
+  | ws =>
+    match answerIo ws with
+    | some a => (c, a)
+    | none => (c, answerWords0 ws)
 
 def answer (c : Cache) (line : String) : Cache × String :=
   answerWords c ((line.trimAscii.toString.splitOn " ").filter (· ≠ ""))
